@@ -974,6 +974,7 @@ def run(ctx):
         "non-directional traversal does not yield the start atom ('every other atom')",
         "breadth-first order: non-decreasing true distance without a direction; with a direction non-decreasing distance under either reading (through the neighbour avoiding "
         "the start, or true distance). The sequences of yield_bfs and yield_bfsd are not required to coincide (two breadth-first orders may differ)",
+        "two traversal generators of one object may be alive at the same time (and other queries may run between the next() calls of a traversal): each yields what it yields alone",
         "generators are consumed with list(...) first and inspected afterwards; the dicts / lists yielded by match / get_substr_indices must be distinct objects",
         "bonded_valence is compared with the sum of Bond.order over the object's bond list (bond types Single/Double/Triple/Aromatic, exactly representable)",
         "embeddings are compared as sets: a repeated yield of the same embedding is not counted as a violation; automorphic images are distinct embeddings",
@@ -1122,6 +1123,11 @@ def run(ctx):
     if not only:
         run_forked(ctx, agg, [(f"attributes part {i}", c15_attr.attr_job, {"seed": seed, "part": i, "nparts": 8}) for i in range(8)], nproc, 800)
         run_forked(ctx, agg, [("views", c15_attr.view_job, {"seed": seed, "thorough": thorough})], nproc, 800)
+    from mc.props import c15_interleave
+
+    if not only:
+        run_forked(ctx, agg, [(f"concurrent traversals part {i}", c15_interleave.interleave_job, {"seed": seed, "part": i, "nparts": 8}) for i in range(8)], nproc, 800)
+    ctx.bound["I_concurrent_traversals"] = f"{len(c15_interleave.FAMILY)} graphs x (Connectivity, ConformerEnsemble): every ordered pair of traversal generators in lockstep and first-k/all/rest for k = 0..n; every generator with is_bond_in_ring / connected_atoms / get_substr_indices between its next() calls; loops capped at n+5 items and 5 s"
     ctx.bound["A_attributes"] = "atom: element (incl. Unknown on either side), isotope, stereo, atype (all members), label, geom (all members), formal_charge, formal_spin; bond: btype (all members on the target x 7 implemented pattern types), stereo, label, f_order; one attribute at a time, on the first atom/bond and on all, target and pattern independently; 3 base pairs; 4 entry points"
     ctx.bound["V_queried_objects"] = "Molecule, Substructure.heavy, Substructure(unordered index lists), Conformer, ConformerEnsemble, objects whose atoms were put into a later container, containers built from atoms of an earlier one, patterns built from the target's own atoms; 3 parents with interleaved hydrogens x 6 patterns"
 
@@ -1144,7 +1150,11 @@ def run(ctx):
 
 def replay(ctx, case):
     agg = Agg()
-    if case["kind"] in ("attr", "view"):
+    if case["kind"] == "interleave":
+        from mc.props import c15_interleave
+
+        c15_interleave.replay_interleave(ctx, agg, case)
+    elif case["kind"] in ("attr", "view"):
         from mc.props import c15_attr
 
         (c15_attr.replay_attr if case["kind"] == "attr" else c15_attr.replay_view)(ctx, agg, case)
